@@ -708,7 +708,7 @@ def run(ctx):
         "per definition. oracle = property text on the implementation's tree; correspondence = model replays the recorded draws and must build the same "
         "tree. non-trivial = >= 3 nodes and >= 2 levels; distinct = distinct (definition, class, seed)"
     )
-    n_defs = 3000 if ctx.thorough else 200
+    n_defs = 6000 if ctx.thorough else 800
     batch = []
     fixed = [(w, t) for w in doc_examples() for t in (False, True)]
     for k in range(n_defs):
